@@ -952,6 +952,7 @@ fn gen_c19_conv(r: &mut Rng) -> Plan {
             cert,
             v13: r.coin(),
             seed: r.next(),
+            chain: *r.pick(&[0u8, 0, 1, 2, 3]),
         });
         p.handshake.seq = 1;
         if let HsBody::V41 { caps, .. } = &mut p.handshake.body {
